@@ -325,3 +325,48 @@ Theorem burst_is_sequential maxc ops s f t k :
 Proof. intros H Hk. pose proof (Inv_exec _ _ _ _ Inv_init H) as (Hwf & Hget & _). cbn [fst snd] in *.
   rewrite sequential_burst by assumption. rewrite Z2Nat.id by assumption. rewrite Hget.
   cbn [step fst snd]. rewrite Hget. repeat split; try reflexivity. f_equal. lia. Qed.
+
+(* ---------- a limiter that gets its handler later (Wrap after requests have arrived) ---------- *)
+(* an arrival before Wrap that is admitted fails in the missing handler and gives its slot back: it leaves no trace *)
+Lemma unwrapped_arrival_neutral maxc s t a s1 : wfmap (cs s) -> acquire maxc s t a = Some s1 ->
+  let s2 := fst (step maxc s1 (Finish t a true)) in
+  (forall k, get (cs s2) k = get (cs s) k) /\ total s2 = total s /\ wfmap (cs s2).
+Proof. intros Hwf H. unfold acquire in H. destruct (maxc <=? get (cs s) t); [discriminate|]. inv H.
+  cbn [step fst release cs total]. split; [|split; [lia|]].
+  - intros k. destruct (Z.eq_dec t k) as [->|Hne].
+    + rewrite get_set_same by (apply wfmap_set, Hwf). rewrite get_set_same by exact (proj1 Hwf). lia.
+    + rewrite !get_set_other by exact Hne. reflexivity.
+  - apply wfmap_set, wfmap_set, Hwf.
+Qed.
+
+(* hence the whole phase before Wrap: whatever arrives, every arrival is answered by what the limiter had in flight before
+   the phase (429 if the source was full, otherwise the failing call), and the limiter reaches Wrap with exactly the
+   accounting it started with: the ordinary run continues from there *)
+Definition unwrapped_answer (maxc : Z) (s : st) (l : list Z) : list Z :=
+  match l with [0; t; a] => if maxc <=? get (cs s) t then [429; 0] else [-1; 0] | _ => [] end.
+
+Lemma run_unwrapped_prefix maxc : forall ops s, wfmap (cs s) ->
+  Forall (fun l => exists t a, l = [0; t; a]) ops ->
+  forall rest, exists s', wfmap (cs s') /\ (forall k, get (cs s') k = get (cs s) k) /\ total s' = total s /\
+    run_unwrapped maxc s (ops ++ [4] :: rest) =
+    map (unwrapped_answer maxc s) ops ++ [] :: run_from (step maxc) s' (map decode_op rest).
+Proof. induction ops as [|l ops IH]; intros s Hwf Hall rest.
+  - exists s. cbn. auto.
+  - inversion Hall as [|x xs Hx Hxs]; subst. destruct Hx as (t & a & ->).
+    cbn [app map unwrapped_answer].
+    change (run_unwrapped maxc s ([0; t; a] :: ops ++ [4] :: rest)) with
+      (match acquire maxc s t a with
+       | None => [429; 0] :: run_unwrapped maxc s (ops ++ [4] :: rest)
+       | Some s1 => [-1; 0] :: run_unwrapped maxc (fst (step maxc s1 (Finish t a true))) (ops ++ [4] :: rest)
+       end).
+    destruct (acquire maxc s t a) as [s1|] eqn:Ea.
+    + destruct (unwrapped_arrival_neutral maxc s t a s1 Hwf Ea) as (G & T & W). cbn zeta in G, T, W.
+      destruct (IH _ W Hxs rest) as (s' & W' & G' & T' & R). exists s'.
+      split; [exact W'|]. split; [intros k; rewrite G', G; reflexivity|]. split; [lia|].
+      unfold acquire in Ea. destruct (maxc <=? get (cs s) t); [discriminate|].
+      rewrite R. f_equal. f_equal. apply map_ext. intros l. unfold unwrapped_answer.
+      destruct l as [|z [|t' [|a' [|? ?]]]]; try reflexivity. destruct z; try reflexivity. rewrite G. reflexivity.
+    + destruct (IH s Hwf Hxs rest) as (s' & W' & G' & T' & R). exists s'.
+      unfold acquire in Ea. destruct (maxc <=? get (cs s) t); [|discriminate].
+      rewrite R. auto.
+Qed.
